@@ -120,7 +120,7 @@ class Layout:
         return self
 
     def meta(self):
-        return {"ncpu": self.ncpu, "levelmax": self.levelmax, "ndim": self.ndim, "boxlen": core.fresh_real("boxlen"),
+        return {"ncpu": self.ncpu, "levelmax": self.levelmax, "levelmin": self.levelmax, "ndim": self.ndim, "boxlen": core.fresh_real("boxlen"),
                 "infile": "output_00001", "nout": 1, "path": "", "infofile": "output_00001/info_00001.txt",
                 "ordering type": "none", "ncells": 0, "nparticles": 0}
 
